@@ -1,6 +1,7 @@
 package main
 
 import (
+	"errors"
 	"bytes"
 	"crypto/md5"
 	"crypto/sha1"
@@ -75,8 +76,25 @@ func sourceReader(vec J, stream []byte) io.Reader {
 		return iotest.OneByteReader(bytes.NewReader(stream))
 	case "half":
 		return iotest.HalfReader(bytes.NewReader(stream))
+	case "transient":
+		// the second Read delivers its bytes TOGETHER with a transient error; the reads after it go on as usual
+		return &transientReader{r: bytes.NewReader(stream)}
 	}
 	return bytes.NewReader(stream)
+}
+
+type transientReader struct {
+	r     io.Reader
+	calls int
+}
+
+func (t *transientReader) Read(p []byte) (int, error) {
+	t.calls++
+	n, err := t.r.Read(p)
+	if t.calls == 2 && n > 0 && err == nil {
+		return n, errors.New("transient read error")
+	}
+	return n, err
 }
 
 func strList(l []interface{}) []string {
